@@ -959,6 +959,42 @@ func registerRegexpModels(e *Engine) {
 	e.intrinsics["(*regexp.Regexp).String"] = func(x *Exec, fn *ssa.Function, a []Value) (Value, bool) {
 		return mkStr(reOf(x, a[0]).String()), true
 	}
+	e.intrinsics["(*regexp.Regexp).Split"] = func(x *Exec, fn *ssa.Function, a []Value) (Value, bool) {
+		re := reOf(x, a[0])
+		s, ok := cs(a[1])
+		if !ok {
+			panic(unsupported("Regexp.Split on symbolic string"))
+		}
+		r := re.Split(s, cint(x, a[2]))
+		if r == nil {
+			return &SliceVal{Nil: true}, true
+		}
+		return mkStrSlice(r), true
+	}
+	e.intrinsics["(*regexp.Regexp).FindString"] = func(x *Exec, fn *ssa.Function, a []Value) (Value, bool) {
+		re := reOf(x, a[0])
+		s, ok := cs(a[1])
+		if !ok {
+			panic(unsupported("Regexp.FindString on symbolic string"))
+		}
+		return mkStr(re.FindString(s)), true
+	}
+	e.intrinsics["(*regexp.Regexp).FindAllStringSubmatch"] = func(x *Exec, fn *ssa.Function, a []Value) (Value, bool) {
+		re := reOf(x, a[0])
+		s, ok := cs(a[1])
+		if !ok {
+			panic(unsupported("Regexp.FindAllStringSubmatch on symbolic string"))
+		}
+		r := re.FindAllStringSubmatch(s, cint(x, a[2]))
+		if r == nil {
+			return &SliceVal{Nil: true}, true
+		}
+		vs := make([]Value, len(r))
+		for i, m := range r {
+			vs[i] = mkStrSlice(m)
+		}
+		return mkSlice(vs), true
+	}
 	e.intrinsics["(*regexp.Regexp).FindAllString"] = func(x *Exec, fn *ssa.Function, a []Value) (Value, bool) {
 		re := reOf(x, a[0])
 		s, ok := cs(a[1])
